@@ -30,8 +30,8 @@ PROPS = {
     },
     "C18": {
         "harness": "vh-types",
-        "level_text": "Kernel-checked theorem about an executable Lean model of tpl_pattern_match (first candidate wins, arrays / table<K,V> / parameterless functions descend, a union pattern matches the whole target) and instantiate_type_generic with literal widening: for every parameter list (the optional pattern `T?` included, after the fix that lets it consume the argument's nil), every assignment of argument components and every return type over the parameters' template variables, calling with the instances infers the return type with the (literal-widened) components substituted. The model is compared with the inferred type of `local r = f(arg...)` on generated calls every run, and an independent oracle (declared return type with the bindings substituted, read through the real annotation analysis) is evaluated on the implementation.",
-        "level_note": "Partial by the scope of the property: overload resolution, conditional / mapped generics, variadics, constraints, class generics and string templates are outside the model; the template family is identity, T[] -> T, T -> T[], pair -> table<T,U>, table<K,V> -> V / K, T? -> T, fun(): T -> T, T[][] -> T[]. Trusted: Lean kernel, harness serialiser, differential run as the tie.",
+        "level_text": "Kernel-checked theorem about an executable Lean model of tpl_pattern_match (first candidate wins, arrays / table<K,V> / parameterless functions descend, a union pattern matches the whole target) and instantiate_type_generic with literal widening: for every parameter list (the optional pattern `T?` included, after the fix that lets it consume the argument's nil), every assignment of argument components and every return type over the parameters' template variables, calling with the instances infers the return type with the (literal-widened) components substituted; only the last argument expands to several values, which line up with the parameters after the plain arguments. The model is compared with the inferred type of `local r = f(arg...)` on generated calls every run, and an independent oracle (declared return type with the bindings substituted, read through the real annotation analysis) is evaluated on the implementation.",
+        "level_note": "Partial by the scope of the property: overload resolution, conditional / mapped generics, variadic template parameters, constraints, class generics and string templates are outside the model; the template family is 1-3 template parameters with parameter / return patterns over T, T[], T[][], table<string,T>, table<T,boolean>, table<integer,T>, table<T,U>, [T,string], [T,U], [T,U,V], {x:T,y:integer}, fun(a:T):integer, fun():T, T? and nestings, with arguments given as typed locals, literals, multi-value calls at any position and `...`. Trusted: Lean kernel, harness serialiser, differential run as the tie.",
         "trusted_base": TY_TB,
         "assumptions": [
             "arguments are variables annotated with `---@type`, or literal expressions for the identity template",
